@@ -52,7 +52,7 @@ impl Check for C10 {
         120
     }
     fn cases(&self, tier: Tier) -> usize {
-        tier.pick(240, 6_000)
+        tier.pick(700, 12_000)
     }
     fn strategy(&self, _tier: Tier) -> BoxedStrategy<Case> {
         let c = c01::cfg();
